@@ -169,6 +169,11 @@ def str_method(I, s, name):
         I.path.fact(z3.And(z3.Contains(t, r), z3.If(dirty, z3.Length(r) < n, r == t)), "str.%s model" % name)
         return SStr(r, isb)
 
+    def fmt(I_, a, k):
+        if conc(a) and all(I.is_plain(x) for x in k.values()):
+            return native(a, k)
+        return Opaque("str.format()")   # message text: never branched on
+
     def generic(I_, a, k):
         if conc(a):
             return native(a, k)
@@ -178,7 +183,7 @@ def str_method(I, s, name):
         if conc(a):
             return native(a, k)
         raise Undecided("upper on symbolic string")
-    t = {"strip": strip_like, "lstrip": strip_like, "rstrip": strip_like, "startswith": startswith, "endswith": endswith, "join": join, "find": find, "index": index,
+    t = {"format": fmt, "strip": strip_like, "lstrip": strip_like, "rstrip": strip_like, "startswith": startswith, "endswith": endswith, "join": join, "find": find, "index": index,
          "encode": enc, "decode": dec, "split": split}
     return MF("str." + name, t.get(name, generic))
 
